@@ -265,7 +265,7 @@ pub fn run(ctx: &mut Ctx) {
         ctx.rep.sample(J::obj(vec![("family", J::s("token")), ("function", J::s("Version::try_from")), ("input", J::s("HTTP/1.1 with byte 7 replaced by every value 0..255"))]));
     }
     // ---- all URIs of length <= 9 (thorough) / 7 (quick) over the 9-symbol alphabet
-    let max_len = if quick { 7 } else { 9 };
+    let max_len = if quick { 7 } else { 10 };
     let mut idx = 0u64;
     for len in 1..=max_len {
         let total = 9u64.pow(len as u32);
